@@ -70,6 +70,16 @@ CHECKS = {
         "get item-level checks only.",
    technique="exhaustive enumeration of (section, key, value) inputs executed on the implementation",
    ref="3/C12"),
+ "C16": dict(cat="model_checking",
+   text="Exhaustive enumeration of every expression tree of the supported grammar with <=3 nodes over 19 leaves and "
+        "4-5 (thorough 6) nodes over reduced leaf sets, evaluated by the real placeholder manager in a running game "
+        "and compared (value and type) with Python's own evaluation one operator at a time; explicit-state BFS over "
+        "variable-change histories for 20 subscribed templates, conditional event handlers and a condition-driven "
+        "event_player entry with a freshness oracle after every change.",
+   note="Trusted: virtual loop, Python's eval as reference. None results map to the template default; Python errors "
+        "other than NameError/TypeError are not judged; BFS depth 4 (quick) / 5 (thorough).",
+   technique="exhaustive bounded enumeration of expressions + explicit-state BFS of change histories on the implementation",
+   ref="3/C16"),
 }
 NOT_YET = "check not built yet in this revision (planned, see DESIGN.md section 7)"
 
